@@ -118,24 +118,31 @@ def run_property(prop: str, module, prog: Program, tier: str) -> "Result":
                     o.status = UNDECIDED
                     o.detail = (f"local anchor(s) {sorted(missed[o.function])} not found in {o.function.split('.')[-1]} (renamed or removed); "
                                 f"the rule cannot decide this site. Was: {o.detail}")[:600]
-    # local-name anchors (anchors.json, generated on the pinned tree): a verdict about a function in
-    # which a local the rule texts mention by name no longer occurs is UNDECIDED, not VIOLATED
+    # local-name anchors (anchors.json, generated per rule on the pinned tree): a VIOLATED verdict of a
+    # rule about a function in which a local that the rule's text mentions by name no longer occurs is
+    # UNDECIDED (a renamed local cannot be told from a broken one); other rules' verdicts stand
     apath = os.path.join(VERIF, "anchors.json")
     if os.path.exists(apath):
         with open(apath) as fh:
             anchors = json.load(fh).get(prop, {})
-        for qn, names in anchors.items():
-            f = prog.functions.get(qn)
-            if f is None:
+        present_cache = {}
+        for o in ctx.obs:
+            if o.status != VIOLATED:
                 continue
-            present = {n.id for n in ast.walk(f.node) if isinstance(n, ast.Name)}
+            names = anchors.get(o.rule, {}).get(o.function)
+            if not names:
+                continue
+            if o.function not in present_cache:
+                f = prog.functions.get(o.function)
+                present_cache[o.function] = {n.id for n in ast.walk(f.node) if isinstance(n, ast.Name)} if f is not None else None
+            present = present_cache[o.function]
+            if present is None:
+                continue
             gone = [x for x in names if x not in present]
             if gone:
-                for o in ctx.obs:
-                    if o.status == VIOLATED and o.function == qn:
-                        o.status = UNDECIDED
-                        o.detail = (f"local anchor(s) {gone} no longer occur in {qn.split('.')[-1]} (renamed or removed); the rules of {prop} "
-                                    f"identify sites in this function through them and cannot decide it. Was: {o.detail}")[:600]
+                o.status = UNDECIDED
+                o.detail = (f"local anchor(s) {gone} no longer occur in {o.function.split('.')[-1]} (renamed or removed); rule {o.rule} "
+                            f"identifies sites in this function through them and cannot decide it. Was: {o.detail}")[:600]
     # floors
     for rule_id, _fn, floor, _d in module.RULES:
         n = sum(1 for o in ctx.obs if o.rule == rule_id and o.status != VANISHED)
